@@ -2,7 +2,8 @@
 import math, random
 from opexpr import popcount
 
-ANGLES = [0.0, math.pi / 2, -math.pi / 2, math.pi, 1.5 * math.pi, 2 * math.pi + 0.3, 1.23456, -0.7, 7.5]
+ANGLES = [0.0, math.pi / 2, -math.pi / 2, math.pi, 1.5 * math.pi, 2 * math.pi + 0.3, 1.23456, -0.7, 7.5,
+          math.pi / 4, -math.pi, 2 * math.pi, 3 * math.pi, 4 * math.pi, -math.pi / 4]
 NOPARAM1 = ["x", "y", "z", "s", "t", "h"]
 PARAM1 = ["rx", "ry", "rz", "u1"]
 PARAM2 = ["rxx", "ryy", "rzz"]
